@@ -7,6 +7,13 @@
 //! (`lib/src/protocol/udp/LIFECYCLE.md`, the doc comments of `mod.rs`/`flow.rs`, `doc/configure.md`).
 //! Every datagram payload is unique (direction tag + seed + counter), so each `SendToBackend` /
 //! `SendToClient` is attributable to exactly one input datagram.
+//!
+//! Shell tier (one seed in `SHELL_ONE_IN`, plan field `shell`, family `shell:*`): the real worker with UDP
+//! listeners over the datagram seam (hooks.rs / world.rs: AF_UNIX SOCK_DGRAM stand-ins with simulated
+//! addresses), scripted UDP clients and backends, master commands racing the traffic. c19_net.rs = plan /
+//! generator / runner / shrinker, c19_peers.rs = scripted peers and the datagram format, c19_judge.rs = oracle.
+//! Development knobs: SIMK_C19_ONLY=shell|model (every seed of a batch is of that tier), SIMK_NETLOG=1
+//! (`simk debug` adds the world log).
 #![allow(dead_code)]
 use std::collections::{BTreeMap, BTreeSet};
 use std::net::{IpAddr, Ipv4Addr, Ipv6Addr, SocketAddr};
@@ -20,6 +27,52 @@ use crate::framework::*;
 use crate::prng::{Prng, TraceHash};
 
 pub struct C19;
+
+/// shell tier (real worker over the datagram seam): peers, plan / generator / runner, oracle
+#[path = "c19_peers.rs"]
+pub mod peers;
+#[path = "c19_net.rs"]
+pub mod net;
+#[path = "c19_judge.rs"]
+pub mod judge;
+
+/// one seed in `SHELL_ONE_IN` is a shell-tier plan (`{"shell": NetPlan}`); the others are model-tier plans
+pub const SHELL_ONE_IN: u64 = 60;
+pub fn is_shell_seed(seed: u64) -> bool {
+    // SIMK_C19_ONLY=shell|model restricts a batch to one tier (development / sensitivity runs)
+    match std::env::var("SIMK_C19_ONLY").as_deref() { Ok("shell") => true, Ok("model") => false, _ => (seed >> 9) % SHELL_ONE_IN == 0 }
+}
+fn shell_of(plan: &Value) -> Option<Result<net::NetPlan, RunReport>> {
+    let t = plan.get("shell")?;
+    Some(serde_json::from_value(t.clone()).map_err(|e| RunReport { harness_error: Some(format!("bad shell plan: {e}")), ..Default::default() }))
+}
+/// Process-global lazily initialised state inside sozu is built by the first run that needs it, from that run's
+/// seeded entropy: every process executes one fixed throw-away shell plan before its first real one.
+fn shell_warm_up() {
+    static ONCE: std::sync::Once = std::sync::Once::new();
+    ONCE.call_once(|| { let _ = net::run_net(&net::generate(0xC19_0001, Tier::Quick), false); });
+}
+pub fn run_shell(p: &net::NetPlan, verbose: bool) -> RunReport {
+    shell_warm_up();
+    let o = net::run_net(p, verbose && std::env::var("SIMK_NETLOG").is_ok());
+    let ver = judge::judge(p, &o, verbose);
+    let mut hash = TraceHash::new();
+    hash.mix(o.trace_hash);
+    for c in o.cmds.iter().chain(std::iter::once(&o.stop)) { hash.mix(c.sent_t.unwrap_or(0)); hash.mix(c.ack_t.unwrap_or(0)); hash.mix(match c.ok { None => 0, Some(true) => 1, Some(false) => 2 }); }
+    for r in &o.got { hash.mix(r.seq); hash.mix_bytes(&r.data[..r.data.len().min(8)]); }
+    for b in &o.backends { for r in &b.got { hash.mix(r.seq); hash.mix(r.data.len() as u64); } }
+    let mut rep = RunReport { seed: p.seed, family: p.family.clone(), violations: ver.violations, trace_hash: hash.0, nontrivial: ver.nontrivial, stats: o.stats.clone(), probes: ver.probes, harness_error: ver.harness_error, summary: net::summarize(p) };
+    rep.probes.insert("shell_plans".into(), 1);
+    rep.probes.insert(format!("shell_plans_{}", net::timer_phase(p)), 1);
+    if verbose {
+        let mut s = vec![rep.summary.clone()];
+        if std::env::var("SIMK_NETLOG").is_ok() { s.extend(o.log); }
+        s.extend(ver.log);
+        for e in &o.tap { s.push(format!("tap #{} +{}us {} fd={} {} peer={:?} len={} res={} note={} {:02x?}", e.seq, e.t / 1000, match e.kind { 1 => "BIND", 2 => "CONNECT", 3 => "CLOSE", 4 => "SEND", _ => "RECV" }, e.fd, e.local, e.peer, e.len, e.res, e.note, &e.head[..e.head.len().min(8)])); }
+        rep.summary = s.join("\n");
+    }
+    rep
+}
 
 const MS: u64 = 1_000_000;
 const PP_SIG: [u8; 12] = [0x0D, 0x0A, 0x0D, 0x0A, 0x00, 0x0D, 0x0A, 0x51, 0x55, 0x49, 0x54, 0x0A];
@@ -1059,16 +1112,25 @@ pub fn shrink_plan(p: &Plan) -> Vec<Plan> {
 impl Property for C19 {
     fn id(&self) -> &'static str { "C19" }
     fn runs(&self, tier: Tier) -> u64 { match tier { Tier::Quick => 600_000, Tier::Thorough => 12_000_000 } }
-    fn gen_plan(&self, seed: u64, tier: Tier) -> Value { serde_json::to_value(generate(seed, tier)).unwrap() }
+    fn gen_plan(&self, seed: u64, tier: Tier) -> Value {
+        if is_shell_seed(seed) { return serde_json::json!({"shell": net::generate(seed, tier)}); }
+        serde_json::to_value(generate(seed, tier)).unwrap()
+    }
     fn run_plan(&self, plan: &Value) -> RunReport {
+        if let Some(t) = shell_of(plan) { return match t { Ok(p) => run_shell(&p, false), Err(r) => r }; }
         let p: Plan = match serde_json::from_value(plan.clone()) { Ok(p) => p, Err(e) => return RunReport { harness_error: Some(format!("bad plan: {e}")), ..Default::default() } };
         run(&p, false).0
     }
     fn shrink(&self, plan: &Value) -> Vec<Value> {
+        if let Some(t) = shell_of(plan) {
+            let Ok(p) = t else { return vec![] };
+            return net::shrink(&p).into_iter().map(|q| serde_json::json!({"shell": q})).collect();
+        }
         let Ok(p) = serde_json::from_value::<Plan>(plan.clone()) else { return vec![] };
         shrink_plan(&p).into_iter().map(|p| serde_json::to_value(p).unwrap()).collect()
     }
     fn debug_plan(&self, plan: &Value) -> String {
+        if let Some(t) = shell_of(plan) { return match t { Ok(p) => { let r = run_shell(&p, true); format!("{}\nviolations: {:#?}\nprobes: {:?}\nharness_error: {:?}", r.summary, r.violations, r.probes, r.harness_error) } Err(r) => format!("{:?}", r.harness_error) }; }
         let p: Plan = match serde_json::from_value(plan.clone()) { Ok(p) => p, Err(e) => return format!("bad plan: {e}") };
         let (rep, log) = run(&p, true);
         format!("{}\n{}\nprobes: {:?}\ntrace_hash {:016x} nontrivial {}\n", summarize(&p), log.join("\n"), rep.probes, rep.trace_hash, rep.nontrivial)
@@ -1076,17 +1138,22 @@ impl Property for C19 {
     fn descr(&self) -> Descr {
         Descr {
             level: "exploration",
-            rule: "seeded operation histories (3-90 operations, swarm-weighted: client datagrams from 1-3 IPs x 1-3 ports, backend datagrams and (stale) resolutions by flow id, clock advances on/around the idle timeouts with a timer-driven shell, cap changes below the live count, cluster reconfiguration incl. affinity-mode flips / no cluster / PPv2 / request+response caps, max_rx changes, drain, abort, close_all, listener rebuild; IPv4 and IPv6); every payload unique; a run is non-trivial when >=1 datagram was forwarded to a backend and >=1 flow was torn down; distinct = distinct hashes of the operation + Output trace",
+            rule: "seeded operation histories (3-90 operations, swarm-weighted: client datagrams from 1-3 IPs x 1-3 ports, backend datagrams and (stale) resolutions by flow id, clock advances on/around the idle timeouts with a timer-driven shell, cap changes below the live count, cluster reconfiguration incl. affinity-mode flips / no cluster / PPv2 / request+response caps, max_rx changes, drain, abort, close_all, listener rebuild; IPv4 and IPv6); every payload unique; a run is non-trivial when >=1 datagram was forwarded to a backend and >=1 flow was torn down; distinct = distinct hashes of the operation + Output trace. TWO TIERS, chosen per seed (one seed in 60 is a shell-tier plan, plan field `shell`, family `shell:*`; the text above is the MODEL TIER). SHELL TIER: the real worker (Server::run under the libc seam, UDP over AF_UNIX SOCK_DGRAM stand-ins with simulated addresses) with 1-3 UDP listeners (idle timeouts 1-5 s front/back, max_rx_datagram_size 64..1500, max_flows 1..4 or 64), 1-2 clusters of 1-3 backends (round robin / random / HRW / Maglev, affinity SOURCE_IP or SOURCE_IP_PORT, `responses` 0-3, `requests` 0-5, PROXY v2 off / first datagram / every datagram, frontend added before or after its cluster), backends that answer 0/1/2 times per datagram, late (50 us..1.5 s), unasked, stall, close their socket mid-run or are not bound at all (datagrams vanish; optionally ECONNREFUSED on the next call, as ICMP would), 2-6 clients on 1-3 IPs (shared IPs, different ports) sending 3-10 (thorough: 3-22) rounds of 1-6 uniquely identifiable datagrams written back to back so that several sources sit in a listener queue in one readable pass (a source never seen before in front of an established one in every second round), lengths around max_rx (0, max_rx, max_rx+1), gaps of 0 us .. 2.5 idle timeouts in virtual time, a flood of 13-26 datagrams towards peers that do not read (simulated send buffer of 3/6/10 datagrams full -> EAGAIN, egress queues, re-arm when the peer reads) in one plan in four, EAGAIN injected into 0/4/15 % of the worker's sends, 0-3 master commands at seeded times racing the traffic (AddBackend, RemoveBackend, UpdateUdpListener max_flows below the live count / max_rx / timeouts, AddCluster again with other knobs, DeactivateListener), in two plans of five a configuration life cycle racing the traffic - RemoveCluster then AddCluster of the same id (same or other knobs, with or without AddBackend again: the worker keeps the backends of a removed cluster registered), RemoveUdpFrontend then AddUdpFrontend (same cluster or another one with the same affinity key), RemoveBackend of every backend then AddBackend of some, DeactivateListener + RemoveListener then AddUdpListener + ActivateListener + AddUdpFrontend at the same address - with datagrams of established sources right before the removal, datagrams while the thing is gone, optionally one inside the re-creation window, and datagrams of old and of a never-seen source 0.3..4 ms (x1/25/250) and again 0.3 s..1.2 idle timeouts after the re-creation, a quiet period longer than every timeout followed by an audit of the worker's UDP descriptor table and one more datagram per client (a new flow), then HardStop or SoftStop with live flows; epoll event truncation/permutation and preemption inside the worker's recv/send loops. Oracle: reference model over the wire tap of the simulated network plus the peers' full-byte records (see c19_judge.rs): fate of every consumed datagram (forward on the one flow of its key / new flow under the cap to a cluster member / drop for size, cap, no backend, no route; a listener routes iff it has a frontend whose cluster exists - after the re-creating command is acknowledged a new source MUST get a flow to a member of the cluster; while a cluster or frontend is removed new sources get nothing, datagrams of flows that are still open may be forwarded on their flow or dropped (documented both ways), their replies are still returned and they are not torn down by the removal), upstream socket = flow = one key = one owner, replies only to the owner through the flow's listener, bytes equal (+ exact PROXY v2 prefix as documented), at most once, consumption order per flow, teardown only for idle / exhausted / deactivated / stopped flows and always for exhausted or expired ones, descriptor table back to listeners only, parked datagrams retried within a second, soft stop answered and left. Non-trivial shell run: >=1 client datagram verified byte-exact at a backend. distinct = distinct trace hashes (shell tier: simulator trace incl. every tap event, command times, peer observations)",
             assumptions: vec![
                 "the harness plays the I/O shell: one-shot timer armed from the ArmTimer stream, BackendResolved answered synchronously or late/stale as the plan says",
                 "release semantics (the manager's debug_assert invariant sweep is compiled out; the oracle does not rely on it)",
                 "documented behaviours taken as specification: one-slot newest-wins buffer while AwaitingBackend; oversize datagrams are dropped (never cut); replies go to the address that opened the flow; idle deadline = last datagram + front/back timeout of the flow's captured config, closed when deadline <= now",
                 "accepted as either/or where documents disagree: client datagram of a source with a live flow while no cluster is configured (drop NoBackend or forward); PPv2 source address on a SOURCE_IP flow fed from another port (flow owner or actual sender)",
+                "shell tier: AF_UNIX SOCK_DGRAM stands in for UDP (reliable, ordered): loss / reordering only where a scripted peer or the simulator injects it (unbound or closed peer sockets, send order of the clients, EAGAIN); a UDP connect() is kept by the simulator (sends addressed per datagram, receives filtered by source); back-pressure is a simulated send buffer (EAGAIN after 3/6/10 unread datagrams at a peer, fresh EPOLLOUT edge when the peer reads) because the kernel's own receiver-full EAGAIN re-reports EPOLLOUT at once",
+                "shell tier: a flow is an upstream socket (LIFECYCLE.md 6); a master command takes effect at one instant between written and answered (every configuration prefix in that window is admissible); a flow may stay open up to 1.5 s past its idle deadline (timer wheel tick, loop latency); a datagram parked behind EAGAIN must be retried within 1 s after the blockage ended; datagrams still queued when their socket closes are lost (documented)",
+                "shell tier: RemoveCluster leaves the cluster's backends registered (server.rs touches health checks and metrics only), so AddCluster alone restores routing; RemoveCluster / RemoveUdpFrontend do not close flows; a command whose answer is a failure leaves no trace",
+                "shell tier: plans keep the affinity key of a cluster fixed (recorded finding U1) and never re-activate a deactivated listener (C08-W2); the idle-reaping verdicts carry the plan-level word early_timer_poll / no_early_timer_poll (recorded finding U2, see c19_net.rs::timer_phase), about half of the plans are free of that trigger",
             ],
-            real: vec!["sozu_lib::protocol::udp::UdpManager / UdpFlow / proxy_protocol (sans-io core, public API: handle_input, handle_timeout, abort_flow, close_all, poll_output, poll_timeout, flow_count)"],
-            stub: vec!["I/O shell (sockets, timer wheel, BackendMap load balancing: backend choice is dictated by the plan)", "clock (injected Instant on a virtual base)", "clients and backends (unique-payload datagram generators)"],
+            real: vec!["sozu_lib::protocol::udp::UdpManager / UdpFlow / proxy_protocol (sans-io core, public API: handle_input, handle_timeout, abort_flow, close_all, poll_output, poll_timeout, flow_count)", "shell tier: sozu_lib::server::Server::run with UdpProxy / UdpListener / UdpListenerSession (lib/src/udp.rs: recv_from loop, per-flow connected upstream sockets, in_flight_client / client_key_to_flow demux, send_to towards clients, upstream and client-return write queues with WRITABLE re-arm, recv_buf sizing, ArmTimer on the worker's timer wheel, close_all_flows on deactivate / soft / hard stop), socket.rs udp_bind / udp_connect, BackendMap keyed selection, UdpManager underneath, command channel (worker side), mio, Linux epoll + AF_UNIX datagram sockets"],
+            stub: vec!["model tier: I/O shell (sockets, timer wheel, BackendMap load balancing: backend choice is dictated by the plan)", "clock (injected Instant on a virtual base; shell tier: World)", "clients and backends (unique-payload datagram generators; shell tier: scripted actors on AF_UNIX datagram sockets)", "shell tier: IP/UDP network (address translation in the libc hooks), entropy, master process (scripted stub)"],
             not_covered: vec![
-                "the I/O shell lib/src/udp.rs over real sockets (upstream socket demux via in_flight_client/client_key_to_flow, write queues, recv_buf sizing, timer wheel integration, gauge updates): separate netsim tier",
+                "model tier only: the I/O shell lib/src/udp.rs (covered by the shell tier)",
+                "shell tier: UDP health checks (lib/src/udp/health.rs; clusters carry no health block), udp.* metrics / active_flows gauge, listeners handed over by SCM_RIGHTS, RemoveListener of a listener that is still active, AddUdpListener between a deactivation and the removal of another listener, UpdateUdpListener / AddUdpFrontend naming a cluster while it is removed (re-points the listener at the removed id with default knobs: not judged, not generated), a frontend moved to a cluster with another affinity key and affinity-key reconfiguration in general (model tier, U1), re-activation of a deactivated listener without removing it (C08-W2), the worker's answers to QueryClusterById & co. (C08), IP fragmentation / real UDP loss, kernel receive-buffer overflow, EMFILE on upstream sockets, datagrams above 1541 bytes",
                 "BackendMap HRW/Maglev selection and health checks (the plan picks backends arbitrarily; only 'affinity hash is a function of the key' is checked)",
                 "mixed-family PPv2 (AF_UNSPEC fallback) and custom FlowKeyExtractor implementations",
                 "empty backend datagrams (not generated: not attributable)",
